@@ -227,16 +227,17 @@ type FoundViolation struct {
 
 // WorkerOpts configures RunWorker.
 type WorkerOpts struct {
-	Seed      int64
-	From, To  int64
-	Tier      string
-	Budget    time.Duration
-	OutDir    string
-	MaxViol   int
-	HashFile  string
-	HashLog   string
-	Known     map[string]bool // signatures of open known findings: recorded once, never minimised, never counted towards MaxViol
-	RaceCheck func() int      // returns number of race reports so far (race build)
+	Seed       int64
+	From, To   int64
+	Tier       string
+	Budget     time.Duration
+	OutDir     string
+	MaxViol    int
+	HashFile   string
+	HashLog    string
+	NoMinimise bool
+	Known      map[string]bool // signatures of open known findings: recorded once, never minimised, never counted towards MaxViol
+	RaceCheck  func() int      // returns number of race reports so far (race build)
 }
 
 // RunWorker executes runs [From,To) of h.
@@ -297,9 +298,6 @@ func RunWorker(h Harness, o WorkerOpts) (res WorkerResult) {
 		for k, n := range out.Counts {
 			st.Add(k, n)
 		}
-		if out.OpsHash != 0 {
-			out.Hash = simrt.Mix(out.Hash, out.OpsHash)
-		}
 		hashes[out.Hash] = true
 		if hl != nil {
 			vs := ""
@@ -341,7 +339,7 @@ func RunWorker(h Harness, o WorkerOpts) (res WorkerResult) {
 			continue
 		}
 		seen[v.Signature] = true
-		if o.Known[v.Signature] {
+		if o.Known[v.Signature] || o.NoMinimise {
 			rp := MakeReplay(h, o.Seed, i, sc, cfg, out, v, false)
 			path := WriteReplay(o.OutDir, rp)
 			res.Violations = append(res.Violations, FoundViolation{v.Signature, v.Detail, path, i})
